@@ -311,3 +311,14 @@ Theorem C02_arithmetic_shift_final_state :
       /\ word_outcome m m' r res (Z.testbit res (sign_bit t)) (trunc_to t res =? 0) false false.
 Proof. exact ars_final. Qed.
 Print Assumptions C02_arithmetic_shift_final_state.
+
+(* CMPH / CMPB: equality and unsigned order of the operands at the operand size, signed order at halfword (and byte)
+   size; nothing but the condition codes changes *)
+Theorem C02_compare_small_final_state :
+  forall ir m a b z n c,
+    cmp_flags (iopcode ir) a b = Some (z, n, c) -> read_op ir 0 m = Ok a m -> read_op ir 1 m = Ok b m ->
+    exists m', exec ir m = Ok (ilen ir) m'
+      /\ flag F_Z m' = z /\ flag F_N m' = n /\ flag F_C m' = c /\ flag F_V m' = false
+      /\ (forall i, 0 <= i <= 15 -> i <> 11 -> R m' i = R m i) /\ mbus m' = mbus m.
+Proof. exact cmp_small_final. Qed.
+Print Assumptions C02_compare_small_final_state.
